@@ -70,6 +70,19 @@ class Outcome:
 DATE_RE = re.compile(rb"\nDate: ([^\n]*)\n")
 
 
+def mask_app(app):
+    """application payload with every wall-clock field blanked: the HTTP Date value and the FILETIME fields of the SMB
+    negotiate responses (SMB1 SystemTime; SMB2 SystemTime and ServerStartTime). No property constrains them."""
+    if app is None:
+        return None
+    a = bytearray(DATE_RE.sub(b"\nDate: X\n", bytes(app)))
+    if len(a) >= 68 and a[4:8] == b"\xffSMB" and a[8] == 0x72:
+        a[60:68] = bytes(8)
+    elif len(a) >= 124 and a[4:8] == b"\xfeSMB" and a[16:18] == b"\0\0":
+        a[108:124] = bytes(16)
+    return bytes(a)
+
+
 def _run_proc(cmd, text, env=None):
     p = subprocess.run(cmd, input=text, stdout=subprocess.PIPE, stderr=subprocess.DEVNULL, env=env, text=True)
     return p.stdout
